@@ -67,6 +67,8 @@ def generate(rng, tier="quick"):
             scn["abandon"].append({"task": fe, "after_yields": rng.randint(1, 3), "restart": True})
         elif fe != "qcconfig" and rng.chance(0.15):
             scn["reruns"].append(fe)
+            if rng.chance(0.3):
+                scn["reruns"].append(fe)  # a third run on the same objects
     return scn
 
 
